@@ -38,20 +38,25 @@ def run_shard(ctx):
 
 
 def check_case(ctx, case):
+    import smoothmath as sm
     s = S.from_json(case["spec"])
     mode = case.get("mode", "tree")
     names = S.variables(s)
     ctx.count("cases")
+    e = S.build(s, mode)            # one long-lived object per case: later points see the memo left by earlier ones
+    firsts = []
     for pj in case["points"]:
         p = S.point_from_json(pj)
         res = R.NORMAL.evaluate(s, p)
         st = res.status
         ctx.hist("reference_status", st)
-        if st != "def":
+        if st == "oos":
             continue
-        root = res.root
-        e = S.build(s, mode)
         out = M.call(e.at, S.make_point(p))
+        firsts.append((p, out, st))
+        if st != "def":
+            continue                # the raising side is C02's; the call still is part of this object's history
+        root = res.root
         ctx.evaluation()
         ctx.hist("family", case.get("family", "?"))
         what = f"{S.show(s)} at {S.show_point(p)}"
@@ -62,15 +67,14 @@ def check_case(ctx, case):
             ctx.nontrivial(case["spec"], pj)
         ctx.sample({"spec": S.show(s), "point": S.show_point(p), "mode": mode, "library": repr(out.value),
                     "enclosure": [R.lo_float(root.iv), R.hi_float(root.iv)], "exact_required": bool(root.fx)})
-        # the same object evaluated again, and a bare number for one-variable expressions
-        out_again = M.call(e.at, S.make_point(p))
-        if out_again.bits() != out.bits():
-            ctx.violation("reevaluation_differs", f"{what}: first {out.brief()}, second {out_again.brief()}")
+        # a fresh object must give the same bits as the long-lived one
+        fresh = M.call(S.build(s, mode).at, S.make_point(p))
+        if fresh.bits() != out.bits():
+            ctx.violation("used_object_differs_from_fresh_copy", f"{what}: object evaluated before at other points gave {out.brief()}, a fresh copy {fresh.brief()}")
         if len(names) <= 1:
             v = p[next(iter(names))] if names else 0.75
             for spelled in ((v,) if not (isinstance(v, float) and v.is_integer()) else (v, int(v))):
-                e2 = S.build(s, mode)
-                out2 = M.call(e2.at, spelled)
+                out2 = M.call(e.at, spelled)
                 ctx.count("bare_number_evaluations")
                 if type(spelled) is type(v):
                     if out2.bits() != out.bits():
@@ -79,6 +83,16 @@ def check_case(ctx, case):
                     # an int-typed coordinate legitimately takes other arithmetic paths (int sums and
                     # powers are exact): same real value, judged against the same enclosure
                     C.judge_number(ctx, out2, root, what + f" [coordinate spelled {spelled!r}]", exact_required=False)
+    # revisit the points in reverse order, refilling the memo through another path in between
+    vs = sorted(names)
+    for i, (p, out, st) in enumerate(reversed(firsts)):
+        if vs and len(firsts) > 1:
+            q = firsts[i % len(firsts)][0]
+            M.call(lambda: sm.Partial(e, vs[0]).at(S.make_point(q)))
+        again = M.call(e.at, S.make_point(p))
+        ctx.count("revisits")
+        if again.bits() != out.bits():
+            ctx.violation("reevaluation_differs", f"{S.show(s)} at {S.show_point(p)}: first {out.brief()}, after other evaluations and derivative queries on the same object {again.brief()}")
 
 
 def deciding(m):
